@@ -34,6 +34,7 @@ type CacheScen struct {
 	// CBReenter: the evicted callback calls back into the cache (Get, Set of another key, Delete)
 	CBReenter bool
 	Payload   bool // values are *payload (race check)
+	Def       time.Duration // default expiration given at construction (0 = none)
 	Classes   int
 	CheckFn   bool
 	NoBlock   []bool
@@ -49,6 +50,9 @@ func (cs *CacheScen) name() string {
 		ini[i] = initNames[x]
 	}
 	fmt.Fprintf(&sb, "%s/%s/%s/%s/init=%v/cb=%v", cs.Prop, twinNames[cs.Twin], relNames[cs.Rel], tableNames[cs.Table], ini, cs.Callback)
+	if cs.Def > 0 {
+		fmt.Fprintf(&sb, "/default=%v", cs.Def)
+	}
 	if cs.CBReenter {
 		sb.WriteString("/reentrant-callback")
 	}
@@ -82,6 +86,9 @@ func (cs *CacheScen) setup(l *tledger) (CacheLike, CState) {
 	lay := layoutFor(cs.Rel)
 	installCacheLayout(&lay)
 	cfg := CacheCfg{Twin: cs.Twin, HasIvl: true, Ivl: 0, Payload: cs.Payload}
+	if cs.Def > 0 {
+		cfg.HasDef, cfg.Def = true, cs.Def
+	}
 	var c CacheLike
 	if cs.Callback {
 		cfg.Callback = func(k, v int) {
@@ -100,6 +107,9 @@ func (cs *CacheScen) setup(l *tledger) (CacheLike, CState) {
 	}
 	c = newCache(cfg)
 	st := CState{Now: epochNs, Def: durNoExp}
+	if cs.Def > 0 {
+		st.Def = cs.Def
+	}
 	if cs.Callback {
 		st.CB = 1
 	}
@@ -246,11 +256,15 @@ func (cs *CacheScen) Scenario() *Scenario {
 				count = c.Count()
 				physN = len(c.Physical())
 				for k := 0; k < cs.NKeys; k++ {
-					v, ok := c.Get(k)
+					v, t, ok := c.GetWithExpiration(k)
 					if ok {
 						liveSeen++
 					}
-					epi = append(epi, HOp{Thread: 9, In: CIn{Op: CGet, K: k}, Out: COut{V: v, Ok: ok}, Call: ts, Ret: ts + 1})
+					o := COut{V: v, Ok: ok}
+					if !t.IsZero() {
+						o.Exp = t.UnixNano()
+					}
+					epi = append(epi, HOp{Thread: 9, In: CIn{Op: CGetWithExpiration, K: k}, Out: o, Call: ts, Ret: ts + 1})
 					ts += 2
 				}
 				// write probe: every scenario key can still be written and removed
